@@ -13,9 +13,9 @@ PROP = dict(
                "ACL answer, in-flight record under the id, receive quota) is read from the real broker before each "
                "request; hooks that reject packets are excluded as the property says.",
     engines=[dict(hx="respond"), dict(hx="writesched", model="respond")],
-    theorems=["C07_modulo_findings", "C07_refuted_pubrel", "C07_refuted_downgrade"],
+    theorems=["C07_modulo_findings", "C07_modulo_findings_sized", "C07_refuted_pubrel", "C07_refuted_downgrade"],
     model_files="coq/Session/Respond.v",
-    rule="sessions of 40 (thorough 60) random requests on one connection (PUBLISH QoS 0-2 on valid/$SYS/denied "
+    rule="every eighth session (MQTT 5) announces Maximum Packet Size 64 and half of its SUBSCRIBE/UNSUBSCRIBE requests carry 62-81 filters, so the acknowledgement cannot be sent and the connection must be ended (model_response_sized); sessions of 40 (thorough 60) random requests on one connection (PUBLISH QoS 0-2 on valid/$SYS/denied "
          "topics with ids from {1,2,3} so that ids collide with unreleased QoS 2 exchanges, PUBREL with 0/0x92, "
          "SUBSCRIBE/UNSUBSCRIBE with 1-3 filters incl. invalid/denied/shared+NoLocal, PINGREQ) x versions 3/4/5 x "
          "server max QoS 0/1/2 x receive maximum 1 x obscure-not-authorized.  writesched: 60 (thorough 1500) forced "
